@@ -530,22 +530,49 @@ func ruleR09_1(c *Check) {
 	for _, s := range f.Sites(selCall(rf)) {
 		is, ok := w.enclosingStmt(s).(*ast.IfStmt)
 		okv := false
-		if ok {
-			ast.Inspect(is.Body, func(n ast.Node) bool {
-				if as, ok := n.(*ast.AssignStmt); ok && len(as.Rhs) == 1 {
-					if id, ok := unparen(as.Rhs[0]).(*ast.Ident); ok && w.Use(id) == errTrunc {
-						for _, g := range w.Guards(f, as) {
-							// `err == io.EOF`, possibly one disjunct of several (… || err == io.ErrUnexpectedEOF)
-							for _, d := range flatten(g.Cond, token.LOR) {
-								if b, ok := unparen(d).(*ast.BinaryExpr); ok && b.Op == token.EQL && g.Val && (w.mentions(b.Y, w.Obj("io.EOF")) || w.mentions(b.X, w.Obj("io.EOF"))) {
-									okv = true
-								}
+		// the mapping `if err == io.EOF { err = errTruncate }` (or `return errTruncate`), written in
+		// the error branch itself or in a helper of the module that the branch calls
+		var mapsEOF func(own *Fn, body ast.Node, depth int) bool
+		mapsEOF = func(own *Fn, body ast.Node, depth int) bool {
+			found := false
+			ast.Inspect(body, func(n ast.Node) bool {
+				var at ast.Node
+				switch x := n.(type) {
+				case *ast.AssignStmt:
+					if len(x.Rhs) == 1 {
+						if id, ok := unparen(x.Rhs[0]).(*ast.Ident); ok && w.Use(id) == errTrunc {
+							at = x
+						}
+					}
+				case *ast.ReturnStmt:
+					for _, res := range x.Results {
+						if id, ok := unparen(res).(*ast.Ident); ok && w.Use(id) == errTrunc {
+							at = x
+						}
+					}
+				case *ast.CallExpr:
+					if depth > 0 {
+						if g := w.calleeFn(own, x); g != nil && g.Decl != nil && g.Body != nil && mapsEOF(g, g.Body, depth-1) {
+							found = true
+						}
+					}
+				}
+				if at != nil {
+					for _, g := range w.Guards(own, at) {
+						// `err == io.EOF`, possibly one disjunct of several (… || err == io.ErrUnexpectedEOF)
+						for _, d := range flatten(g.Cond, token.LOR) {
+							if b, ok := unparen(d).(*ast.BinaryExpr); ok && b.Op == token.EQL && g.Val && (w.mentions(b.Y, w.Obj("io.EOF")) || w.mentions(b.X, w.Obj("io.EOF"))) {
+								found = true
 							}
 						}
 					}
 				}
 				return true
 			})
+			return found
+		}
+		if ok {
+			okv = mapsEOF(f, is.Body, 1)
 		}
 		r.Check(okv, f, k.key("EOF mapped to errTruncate", w, s), s, "io.EOF from this read is not converted to errTruncate")
 	}
